@@ -93,6 +93,8 @@ def hash_definition(func: Callable) -> str:
         if code is not None:
             h.update(code.co_code)
             h.update(repr(tuple(c if not hasattr(c, "co_name") else c.co_name for c in code.co_consts)).encode())
+            # co_code refers to globals and attributes by index: min(xs) and max(xs) differ in co_names only
+            h.update(repr(code.co_names).encode())
         # Functions made by one factory share their source text: what tells them
         # apart is what they captured (and their defaults), as in the bytecode
         # fallback below. Plain module-level functions hash as before.
@@ -117,6 +119,8 @@ def hash_definition(func: Callable) -> str:
         # Serialize co_consts deterministically (replace nested code objects with names)
         consts_serialized = tuple(c if not hasattr(c, "co_name") else c.co_name for c in code.co_consts)
         h.update(repr(consts_serialized).encode())
+        # co_code refers to globals and attributes by index: floor(x) and ceil(x) differ in co_names only
+        h.update(repr(code.co_names).encode())
 
         # Include function defaults to distinguish f(x=1) from f(x=2)
         h.update(repr(getattr(func, "__defaults__", None)).encode())
